@@ -561,3 +561,98 @@ class ReadBack(Oracle):
                     if os.path.isfile(srcp) and want not in v["state"] and not any(k.startswith(want + "/") for k in v["state"]):
                         fails.append("cp to %r was accepted but the staged view has no such path: %s" % (want, sorted(v["state"])[:6]))
         return fails
+
+
+def glob_to_re(g):
+    """the modelled glob subset with literal_separator = false; globset matches bytes"""
+    gb = g.encode("utf-8")
+    out, i = b"", 0
+    while i < len(gb):
+        c = gb[i:i + 1]
+        if c == b"*":
+            out += b".*"
+        elif c == b"?":
+            out += b"."
+        elif c == b"\\" and i + 1 < len(gb):
+            i += 1
+            out += re.escape(gb[i:i + 1])
+        else:
+            out += re.escape(c)
+        i += 1
+    rx = re.compile(b"^" + out + b"$", re.S)
+
+    class M:
+        @staticmethod
+        def match(x):
+            return rx.match(x.encode("utf-8"))
+    return M
+
+
+class Listing(Oracle):
+    """C19: `ls` returns every committed object exactly once (with a glob: exactly the matching ids),
+    never a staged-only object; every committed id can be opened, a never-committed or purged id is
+    not found; the staged listing is exactly the set of objects with a staged version."""
+    name = "listing"
+
+    def __init__(self):
+        self.checks = 0
+        self.committed = {}     # id -> head number
+        self.staged = set()
+
+    def after(self, ctx, st, resp):
+        oid = oid_of(st)
+        op = st["op"]
+        if st["kind"] == "mut" and oid:
+            o = resp.split(" ")[0]
+            if op == "new":
+                if o == "ok":
+                    self.staged.add(oid)
+            elif op in ("commit", "upgrade"):
+                if o == "ok":
+                    self.staged.discard(oid)
+                    self.committed[oid] = self.committed.get(oid, 0) + 1
+                elif op == "upgrade" and o != "err:notFound" and (oid in self.committed or oid in self.staged):
+                    self.staged.add(oid)
+            elif op == "purge":
+                if o == "ok":
+                    self.committed.pop(oid, None)
+                    self.staged.discard(oid)
+            elif op == "resetall":
+                if o == "ok":
+                    self.staged.discard(oid)
+            elif op in ("cpx", "mvx", "cpi", "mvi", "rm"):
+                # get_or_created_staged_inventory runs before anything can fail for another reason
+                if oid in self.committed and not (o == "err:notFound" and oid not in self.staged and False):
+                    self.staged.add(oid)
+        if st["kind"] != "mut":
+            return []
+        self.checks += 1
+        fails = []
+        for q, want in (("ls -", self.committed), ("lsstaged -", self.staged)):
+            r = ctx.live.ask(q)
+            if not ok(r):
+                fails.append("`%s` failed: %s" % (q, r[:100])); continue
+            j = jbody(r)
+            got = [x[0] for x in j["objects"]]
+            if j["errors"]:
+                fails.append("`%s` met %d errors" % (q, j["errors"]))
+            if sorted(got) != sorted(want):
+                fails.append("after `%s` (%s) `%s` lists %s, expected exactly %s" % (op, resp.split(" ")[0], q, sorted(got), sorted(want)))
+        for i in set(self.committed) | ({oid} if oid else set()):
+            r = ctx.live.ask("ver %s -" % hx(i))
+            if i in self.committed and not ok(r):
+                fails.append("committed object %r cannot be opened: %s" % (i, r[:120]))
+            if i not in self.committed and not r.startswith("err:notFound"):
+                fails.append("object %r was never committed / was purged but opening it says: %s" % (i, r[:120]))
+        if self.committed:
+            import random as _r
+            i = sorted(self.committed)[self.checks % len(self.committed)]
+            for g in (i[: max(1, len(i) // 2)] + "*", "*" + i[len(i) // 2:], "*"):
+                if any(c in g.replace("*", "") for c in "*?[]{}\\"):
+                    continue
+                r = ctx.live.ask("ls %s" % hx(g))
+                want = sorted(x for x in self.committed if glob_to_re(g).match(x))
+                got = sorted(x[0] for x in jbody(r)["objects"]) if ok(r) else None
+                if got != want:
+                    fails.append("`ls %r` lists %s, the committed ids matching are %s" % (g, got, want))
+        return fails
